@@ -1466,7 +1466,7 @@ BD_Shape<T>::relation_with(const Congruence& cg) const {
   PPL_DIRTY_TEMP_COEFFICIENT(max_value);
   max_value = max_numer / max_denom;
   signed_distance = max_value % modulus;
-  max_value += signed_distance;
+  max_value -= signed_distance;
   if (max_value * max_denom > max_numer) {
     max_value -= modulus;
   }
@@ -1475,6 +1475,12 @@ BD_Shape<T>::relation_with(const Congruence& cg) const {
   // otherwise it will strictly intersect.
   if (max_value < min_value) {
     return Poly_Con_Relation::is_disjoint();
+  }
+  else if (min_numer * max_denom == max_numer * min_denom) {
+    // The expression is constant on the shape and (since the
+    // intersection is not empty) its value satisfies the congruence.
+    return Poly_Con_Relation::saturates()
+      && Poly_Con_Relation::is_included();
   }
   else {
     return Poly_Con_Relation::strictly_intersects();
